@@ -125,8 +125,26 @@ def gen_enum(seed, k):
     lo, hi = INT_RANGE[int_repr or ("i32" if "C" in " ".join(reprs) else "isize")]
     if any(not (lo <= v <= hi) for v in vals):
         return None
+    # spelling of the explicit discriminants: literal forms everywhere; constant expressions only where the enum has a
+    # primitive representation (educe refuses non-literal discriminants otherwise — a documented limit)
+    suffix = int_repr or "isize"
+    dtxt = []
+    for d in disc:
+        if d is None:
+            dtxt.append(None)
+            continue
+        forms = ["%d" % d]
+        if d >= 0:
+            forms += ["0x%X" % d, "%d_%s" % (d, suffix) if False else "%d%s" % (d, suffix), "0b%s" % bin(d)[2:], "0o%o" % d]
+            if d >= 1000:
+                forms.append("{:,}".format(d).replace(",", "_"))
+        if int_repr:
+            forms += ["(%d) + 1" % (d - 1) if d - 1 >= lo else "%d" % d, "%d * 1" % d if d >= 0 else "-(%d)" % (-d)]
+            if d > 0 and d & (d - 1) == 0:
+                forms.append("1 << %d" % (d.bit_length() - 1))
+        dtxt.append(rng.choice(forms))
     mode = rng.choice(["Ord", "Both", "Both", "PartialOrd"])
-    return {"variants": variants, "reprs": reprs, "disc": disc, "dvals": vals, "generic": generic, "mode": mode,
+    return {"disc_txt": dtxt, "variants": variants, "reprs": reprs, "disc": disc, "dvals": vals, "generic": generic, "mode": mode,
             "int_repr": int_repr}
 
 
@@ -139,8 +157,8 @@ def render(e, strip=False):
     for r in e["reprs"]:
         out.append("#[repr(%s)]\n" % r)
     out.append("pub enum En%s {\n" % ("<G>" if e["generic"] else ""))
-    for v, d in zip(e["variants"], e["disc"]):
-        ds = (" = %d" % d) if d is not None else ""
+    for v, d in zip(e["variants"], e.get("disc_txt") or e["disc"]):
+        ds = (" = %s" % d) if d is not None else ""
         if v["style"] == "unit":
             out.append("    %s%s,\n" % (v["name"], ds))
         elif v["style"] == "tuple":
